@@ -255,6 +255,11 @@ Proof.
   destruct H as [-> | H]; [left; reflexivity | right; apply IH, H].
 Qed.
 
+Lemma nth_firstn_lt {A} (l : list A) k i d : i < k -> nth i (firstn k l) d = nth i l d.
+Proof.
+  revert l i. induction k as [|k IH]; intros [|a l] [|i] H; simpl; auto; try lia. apply IH. lia.
+Qed.
+
 Lemma Forall_nth_len L (P : mat) i : all_len L P -> i < length P -> length (nth i P []) = L.
 Proof.
   intros HP Hi. unfold all_len in HP. rewrite Forall_forall in HP. apply HP, nth_In, Hi.
@@ -434,3 +439,126 @@ Section Recon.
              apply HPR, nth_In. rewrite HP. lia.
   Qed.
 End Recon.
+
+(* ------------------------------------------------------------------ *)
+(* the C21 statements *)
+Lemma rule_box_k k m : rule_in_box k m -> 1 <= k.
+Proof. intros [H _]. lia. Qed.
+
+Theorem encode_equal_lengths k m data : rule_in_box k m -> bytes data ->
+  length (encode k m data) = k + m /\
+  all_len (part_len k (length data)) (encode k m data).
+Proof.
+  intros HB Hb. pose proof (rule_box_k _ _ HB) as Hk. pose proof (rule_facts_box _ _ HB) as HF.
+  destruct data as [|a data'] eqn:E.
+  - simpl. split; [apply repeat_length|].
+    unfold all_len. apply Forall_forall. intros p Hp. apply repeat_spec in Hp. subst p.
+    unfold part_len. simpl. symmetry. apply Nat.div_small. lia.
+  - rewrite <- E in *. assert (Hne : data <> []) by (rewrite E; discriminate).
+    split; [apply P_len | apply P_all_len]; assumption.
+Qed.
+
+Lemma existsb_seq i s len : existsb (Nat.eqb i) (seq s len) = (s <=? i) && (i <? s + len).
+Proof.
+  destruct (existsb (Nat.eqb i) (seq s len)) eqn:E.
+  - apply existsb_exists in E. destruct E as [x [Hx He]]. apply Nat.eqb_eq in He. subst x.
+    apply in_seq in Hx. symmetry. apply andb_true_iff. split; [apply Nat.leb_le | apply Nat.ltb_lt]; lia.
+  - symmetry. apply not_true_is_false. intros H. apply andb_true_iff in H. destruct H as [H1 H2].
+    apply Nat.leb_le in H1. apply Nat.ltb_lt in H2.
+    assert (X : existsb (Nat.eqb i) (seq s len) = true).
+    { apply existsb_exists. exists i. split; [apply in_seq; lia | apply Nat.eqb_refl]. }
+    congruence.
+Qed.
+
+Theorem decode_erase_encode k m data mask :
+  rule_in_box k m -> data <> [] -> bytes data ->
+  length mask = k + m -> k <= count_true mask ->
+  decode k m (length data) (erase mask (encode k m data)) = Some data.
+Proof.
+  intros HB Hne Hb Hmask Hcount.
+  pose proof (rule_box_k _ _ HB) as Hk. pose proof (rule_facts_box _ _ HB) as HF.
+  destruct (reconstruct_spec k m data Hk HF Hne Hb mask Hmask Hcount (required_of (k + m) (seq 0 k)))
+    as (R & HR & HRl & HRn).
+  unfold decode. rewrite HR.
+  assert (HD : firstn k R = split_data k data).
+  { apply nth_ext with (d := []) (d' := []).
+    - rewrite firstn_length, HRl, (D_len k data Hk Hb). lia.
+    - intros i Hi. rewrite firstn_length, HRl in Hi. assert (Hik : i < k) by lia.
+      rewrite nth_firstn_lt by exact Hik.
+      rewrite HRn by lia. unfold recon_result.
+      rewrite required_of_nth by lia. rewrite existsb_seq. simpl.
+      replace (i <? k) with true by (symmetry; apply Nat.ltb_lt; exact Hik).
+      rewrite orb_true_r. apply P_data; assumption. }
+  unfold total_len, concat_data_parts. rewrite HD.
+  pose proof (D_concat k data Hk Hb) as HC.
+  assert (Hlen : length data <= length (concat (split_data k data))).
+  { rewrite <- HC at 1. rewrite firstn_length. lia. }
+  replace (length (concat (split_data k data)) <? length data) with false
+    by (symmetry; apply Nat.ltb_ge; exact Hlen).
+  rewrite HC. reflexivity.
+Qed.
+
+Definition restored (k m : nat) (data : list N) (mask : list bool) (want : nat -> bool) (R : mat) : Prop :=
+  length R = k + m /\
+  forall i, i < k + m ->
+    nth i R [] = if nth i mask false || want i then nth i (encode k m data) [] else [].
+
+Theorem decode_indexes_restores k m data mask idxs :
+  rule_in_box k m -> data <> [] -> bytes data ->
+  length mask = k + m -> k <= count_true mask ->
+  exists R, decode_indexes k m (erase mask (encode k m data)) idxs = Some R /\
+            restored k m data mask (fun i => existsb (Nat.eqb i) idxs) R.
+Proof.
+  intros HB Hne Hb Hmask Hcount.
+  pose proof (rule_box_k _ _ HB) as Hk. pose proof (rule_facts_box _ _ HB) as HF.
+  destruct (reconstruct_spec k m data Hk HF Hne Hb mask Hmask Hcount (required_of (k + m) idxs))
+    as (R & HR & HRl & HRn).
+  exists R. split; [exact HR|]. split; [exact HRl|].
+  intros i Hi. rewrite HRn by exact Hi. unfold recon_result. rewrite required_of_nth by exact Hi. reflexivity.
+Qed.
+
+Theorem decode_range_restores k m data mask from to :
+  rule_in_box k m -> data <> [] -> bytes data ->
+  length mask = k + m -> k <= count_true mask ->
+  exists R, decode_range k m from to (erase mask (encode k m data)) = Some R /\
+            restored k m data mask (fun i => (from <=? i) && (i <=? to)) R.
+Proof.
+  intros HB Hne Hb Hmask Hcount.
+  destruct (decode_indexes_restores k m data mask (seq from (S to - from)) HB Hne Hb Hmask Hcount)
+    as (R & HR & HRl & HRn).
+  exists R. split; [exact HR|]. split; [exact HRl|].
+  intros i Hi. rewrite HRn by exact Hi. rewrite existsb_seq.
+  assert (E : ((from <=? i) && (i <? from + (S to - from)) = (from <=? i) && (i <=? to))%bool).
+  { destruct (Nat.leb_spec from i); destruct (Nat.leb_spec i to);
+      destruct (Nat.ltb_spec i (from + (S to - from))); simpl; try reflexivity; lia. }
+  rewrite E. reflexivity.
+Qed.
+
+(* the empty payload: iec.Encode returns k+m empty parts; feeding them to
+   iec.Decode is an error in the library (ErrShardNoData).  The GET service
+   never does that (it returns as soon as the header says payload size 0). *)
+Lemma shard_size_erase_empty mask n : shard_size (erase mask (repeat [] n)) = 0.
+Proof.
+  revert n. induction mask as [|b r IH]; intros [|n]; simpl; auto.
+  destruct b; simpl; apply IH.
+Qed.
+
+Theorem decode_empty_is_error k m mask :
+  decode k m 0 (erase mask (encode k m [])) = None.
+Proof.
+  unfold decode, reconstruct. simpl encode.
+  destruct (negb (length (erase mask (repeat [] (k + m))) =? k + m)); [reflexivity|].
+  rewrite shard_size_erase_empty. reflexivity.
+Qed.
+
+Section Hashes.
+  Variable Dg : Type.
+  Variable H : list N -> Dg.
+
+  Theorem encode_hashes_match k m data :
+    length (encode_hashes H k m data) = length (encode k m data) /\
+    forall i, nth i (encode_hashes H k m data) (H []) = H (nth i (encode k m data) []).
+  Proof.
+    unfold encode_hashes. split; [apply map_length|]. intros i. apply map_nth.
+  Qed.
+End Hashes.
